@@ -14,6 +14,7 @@ const (
 	WFaultNone  = 0
 	WFaultFail  = 1 // from write #FailAt on: accept nothing, return ErrSim
 	WFaultShort = 2 // write #FailAt accepts ShortN bytes (< len) and returns ErrSim; later writes fail
+	WFaultOnce  = 3 // only write #FailAt fails (accepting ShortN bytes); the writer then works again
 )
 
 // SimWriter is the only http.ResponseWriter the library sees in a simulation. It is private to
@@ -65,8 +66,10 @@ func (w *SimWriter) Write(p []byte) (int, error) {
 	w.Chunks = append(w.Chunks, len(p))
 	n := len(p)
 	var err error
-	if w.FaultMode != WFaultNone && k >= w.FailAt {
-		if w.FaultMode == WFaultShort && k == w.FailAt {
+	if w.FaultMode == WFaultOnce && k != w.FailAt {
+		// transient fault: not this write
+	} else if w.FaultMode != WFaultNone && k >= w.FailAt {
+		if (w.FaultMode == WFaultShort || w.FaultMode == WFaultOnce) && k == w.FailAt {
 			n = w.ShortN
 			if n > len(p) {
 				n = len(p)
